@@ -82,7 +82,8 @@ extern int lab_nprobes;
 /* returns a probe to hand over to upipe_*_alloc (one reference given away);
  * the lab keeps its own reference until lab_probes_release() */
 struct uprobe *lab_probe_new(const char *name, int *id_p);
-void lab_probes_release(void);
+/* returns the number of probes still referenced by somebody else */
+int lab_probes_release(void);
 /* hook for events the lab wants to intercept (probe_uref etc.): return true if handled */
 extern bool (*lab_probe_hook)(struct rprobe *rp, struct upipe *upipe, int event, va_list args, int *ret_p);
 
